@@ -133,6 +133,7 @@ def truth_uses(fn, pred):
         elif isinstance(n, ast.BoolOp):
             # value position (x or default / x and y): every operand but the last is tested for truth
             for v in n.values[:-1]: visit_test(v)
+        elif isinstance(n, ast.Call) and isinstance(n.func, ast.Name) and n.func.id == "bool" and len(n.args) == 1: visit_test(n.args[0])
     seen = set(); uniq = []
     for e in out:
         if id(e) not in seen: seen.add(id(e)); uniq.append(e)
